@@ -142,6 +142,10 @@ func TestVerifC04(t *testing.T) {
 		return r.Range(-3, 40)
 	}
 	var inputs []verifc04.Input
+	// candidate finding: a reply that carries a chunk nobody asked for twice (overlapping parts)
+	inputs = append(inputs,
+		verifc04.Input{Class: "suspect:reply-repeats-unrequested-chunk", Kind: "range", Op: "blob 100 1 37 14 7:7:1 5:7:3"},
+		verifc04.Input{Class: "scenario:reply-exact", Kind: "range", Op: "blob 100 10 35 10 30:49:20"})
 	hdrs := []string{"", "bytes", "bytes 0-0/1", "bytes 5-2/10", "bytes 10-20/5", "bytes 0-18446744073709551615/18446744073709551616",
 		"bytes 99999999999999999999-1/2", "bytes 0-1/*", "bytes 0-1/99999999999999999999999", "bytes -1-2/3", "bytes 0--1/3", "BYTES 0-1/2",
 		"bytes 0-1/2 bytes 3-4/5", "bytes 9223372036854775807-9223372036854775807/9223372036854775807", "bytes 00000000000000000001-2/3", "bytes 1-2/\\*"}
